@@ -255,6 +255,14 @@ impl DocumentBuilder {
             .name_id_builder
             .element_name_id(&prefix, &name, prefix.into(), xot)?;
         let current_node = xot.arena.get(self.current_node_id).unwrap();
+        if matches!(current_node.get(), Value::Document) {
+            // a close tag without any open element (possible in a fragment)
+            return Err(ParseError::InvalidCloseTag(
+                prefix.to_string(),
+                name.to_string(),
+                Span::from_prefix_name(prefix, name),
+            ));
+        }
         if let Value::Element(element) = current_node.get() {
             if element.name_id != name_id {
                 return Err(ParseError::InvalidCloseTag(
